@@ -6,6 +6,7 @@ import (
 	"os"
 
 	"verif/common"
+	"verif/gcs/drive"
 )
 
 type checkDef struct {
@@ -40,6 +41,10 @@ func main() {
 		os.Exit(3)
 	}
 	run := common.NewRun(os.Args[1], c.level, os.Args[2:])
+	if os.Args[1] != "C20G" && os.Args[1] != "C19" {
+		// (C20G runs the emulator in child processes and judges unanswered requests itself - being answered is its property)
+		drive.OnUnanswered = func(desc string) { hangConfirm(run, desc) }
+	}
 	c.fn(run)
 	run.Finish()
 }
